@@ -78,6 +78,9 @@ func unquoteString(s string) (string, error) {
 				}
 				r = rune(num)
 				i += 4
+			} else if r == '"' {
+				// \" is a double quote.  (It needs no escape inside single
+				// quotes, so quoteString never writes it: not in the table.)
 			} else {
 				replacement, ok := unescapes[r]
 				if !ok {
